@@ -389,7 +389,10 @@ def check_attached(case):
     if P != "EME2000":
         kw["parent"] = get_frame(P)
     frame = ref.as_frame(name, **kw)
-    dates = [d0 + timedelta(seconds=x) for x in case["dts"]]
+    # a bare state has no motion and belongs to its own date (which day's TEME / MOD axes its coordinates refer to
+    # at another date is not defined): it is used at that date only
+    dts = case["dts"] if kind != "statevector" else [0.0, 0.0]
+    dates = [d0 + timedelta(seconds=x) for x in dts]
 
     def centre_in(j, target):
         """reference state at date j, expressed in built-in frame `target` (fresh objects only)"""
